@@ -480,6 +480,45 @@ func checkInSyncProvenance(c *Ctx) {
 						}
 					}
 				}
+				// a helper that is handed the list: every caller must hand it the list it sent
+				if !fromKeyParam && !fromSent && fromScan == "" {
+					for _, leaf := range core.Leaves(entry, core.SliceOpts{ThroughCalls: true}) {
+						par, ok := leaf.(*ssa.Parameter)
+						if !ok {
+							continue
+						}
+						if _, isSlice := par.Type().Underlying().(*types.Slice); !isSlice {
+							continue
+						}
+						idx := -1
+						for i, q := range f.Params {
+							if q == par {
+								idx = i
+							}
+						}
+						callers := callersOf(p, f, "agent/local")
+						all := idx >= 0 && len(callers) > 0
+						for _, ci := range callers {
+							g := ci.Parent()
+							okArg := false
+							for _, b2 := range g.Blocks {
+								for _, in2 := range b2.Instrs {
+									if st2, ok := in2.(*ssa.Store); ok {
+										if fa2, ok := st2.Addr.(*ssa.FieldAddr); ok && core.FieldObj(fa2).Name() == "Checks" && idx < len(ci.Common().Args) && st2.Val == ci.Common().Args[idx] {
+											okArg = true
+										}
+									}
+								}
+							}
+							if !okArg {
+								all = false
+							}
+						}
+						if all {
+							fromSent = true
+						}
+					}
+				}
 				switch {
 				case fromScan != "":
 					r.Violate("C16.6", construct, p.Pos(st.Pos()), "the in-sync flag is set on entries chosen by "+fromScan+", not on what was sent: an entry that was never pushed (a check registered under another token, a check added while the push was failing) is recorded as synced and is skipped by every later sync")
